@@ -14,7 +14,7 @@ COMPONENTS = {"real": ["Atoms.replicate -> Atoms.copy/translate/extend", "numpy"
               "stub": ["none needed: no random, clock or I/O on this path (stated in DESIGN: weakest fit of the technique)"],
               "oracle_only": ["mofsim.refmodel.RefAtoms.replicate; image-block order is read off the result, or atoms are matched by position"]}
 ASSUMPTIONS = ["image order is not prescribed: the model's images are ordered like the result's blocks, otherwise atoms are matched by position (1e-9)"]
-NRUNS = {"quick": 1200, "thorough": 30000}
+NRUNS = {"quick": 10000, "thorough": 150000}
 MUST_REACH = ["replications_checked", "unequal_factors", "triclinic_replications", "replications_with_impropers", "identity_replications", "coincident_images"]
 
 DIMS = [[1, 1, 1], [2, 1, 1], [1, 2, 1], [1, 1, 2], [2, 2, 1], [1, 2, 3], [3, 1, 2], [2, 3, 1], [2, 2, 2], [1, 1, 3], [3, 2, 1]]
